@@ -583,29 +583,20 @@ def f_detfinish(broken=1, slow=4, lead=0, cfg="c"):
             "sub/plan.py": script(sub), "sub/work.py": script(work)}
 
 
-def f_planuse(use=1, chain=2, src="x", psrc="c"):
-    """A chain of optional steps (A: src -> a.txt, M: a.txt -> m.txt) whose only consumer is a
-    planning step: ./sub.py amends the end of the chain while use=1. Edits of use only touch
-    sub.py, so the plan that declares the chain is skipped when the consumer goes away."""
+def f_planuse(use=1, chain=2, src="x", psrc="c", need="OPTIONAL"):
+    """A chain of steps (A: src -> a.txt, M: a.txt -> m.txt; optional, or of default need) whose
+    only consumer is a planning step: ./sub.py amends the end of the chain while use=1. Edits of
+    use only touch sub.py, so the plan that declares the chain is skipped when the consumer goes
+    away. I is an independent step (a target that requires nothing of the chain)."""
     last = "m.txt" if chain == 2 else "a.txt"
     root = [["static", "src.txt", "sub.py", "cfg.txt"],
-            tr("A", ["src.txt"], ["a.txt"], need="OPTIONAL")]
+            tr("A", ["src.txt"], ["a.txt"], need=need)]
     if chain == 2:
-        root.append(tr("M", ["a.txt"], ["m.txt"], need="OPTIONAL"))
+        root.append(tr("M", ["a.txt"], ["m.txt"], need=need))
+    root.append(tr("I", ["cfg.txt"], ["i.txt"]))
     root.append(["plan", "./sub.py", {"inp": ["cfg.txt"]}])
     sub = [["amend", {"inp": [last]}], ["read", last]] if use else [["read", "cfg.txt"]]
     return {"plan.py": script(root), "sub.py": script(sub), "src.txt": src + "\n", "cfg.txt": psrc + "\n"}
-
-
-def f_failwrite(fail=0, present=1, src="x", outdir="."):
-    """W: ./w.py writes w.out from src.txt; with fail=1 it writes other content and then fails.
-    present=0: the plan no longer defines W."""
-    out = "w.out" if outdir == "." else f"{outdir}/w.out"
-    w = [["write", out, ["src.txt"], "failing"], ["exit", 1]] if fail else [["write", out, ["src.txt"]]]
-    root = [["static", "src.txt", "w.py"]]
-    if present:
-        root.append(["run", "./w.py", {"inp": ["src.txt"], "out": [out]}])
-    return {"plan.py": script(root), "w.py": script(w), "src.txt": src + "\n"}
 
 
 def f_latestatic(gap=1, cfg="c"):
@@ -651,7 +642,8 @@ DOMAINS = {
     "f_hold": {"nesting": (2, 1), "v": (1, 2)},
     "f_detfinish": {"broken": (1, 0), "lead": (0, 2)},
     "f_failwrite": {"fail": (0, 1), "present": (1, 0), "src": ("x", "y"), "outdir": (".", "gen/sub")},
-    "f_planuse": {"use": (1, 0), "chain": (2, 1), "src": ("x", "y"), "psrc": ("c", "d")},
+    "f_planuse": {"use": (1, 0), "chain": (2, 1), "src": ("x", "y"), "psrc": ("c", "d"),
+                  "need": ("OPTIONAL", "DEFAULT")},
 }
 ENV_DOMAIN = {"f_env": {"VERIF_X": (None, "1", "2", "")}}
 
